@@ -492,7 +492,8 @@ func (r *WordRenderer) cleanText(text string) string {
 func (r *WordRenderer) renderTable(node *extast.Table) (ast.WalkStatus, error) {
 	// 收集表格数据
 	var tableData [][]string
-	var alignments []extast.Alignment
+	// 对齐方式来自分隔行（表格节点本身），只有表头没有数据行的表格也要保留对齐
+	alignments := node.Alignments
 	var emphases [][]int
 
 	// 遍历表头
